@@ -68,6 +68,7 @@ type Unit struct {
 	entryState *State
 	params     []Val
 	Inlined    map[string]bool
+	externStrs []*SliceV // string results of assumed (extern) calls: alternative replay candidates for string inputs
 	curFrame   *frame
 	callStack  []*ssa.Function
 	loopRegion []*loopRegion // active loop frames (innermost last)
